@@ -76,8 +76,8 @@ def _datasets(draw, tier, mode="any", exact=False, variant=0, force_runout=False
                 low = i >= n / 2.0          # lower levels are more likely to hold run-outs
                 pool = ["fracture"] * (1 if low else 3) + ["mixed"] * 2 + ["runout"] * (3 if low else 1)
                 kinds.append(draw(st.sampled_from(pool)))
-        if force_runout and all(kd == "fracture" for kd in kinds):
-            kinds[-1] = "runout"
+        if (force_runout or (mode == "any" and not no_runouts)) and all(kd == "fracture" for kd in kinds):
+            kinds[-1] = "runout"            # series without any run-out only when drawn explicitly (1 in 8)
     n = len(kinds)
     n_inf = sum(1 for kd in kinds if kd != "fracture")
     # loads, generated from the lowest level upwards; the infinite-zone levels straddle SD
@@ -900,15 +900,20 @@ def _ml_run(name, kind):
             ctx.label("TS_undetermined")
             if ctx.known(fid):
                 return
+        tol = _ll_tol(name, rows)
+        ts_free = inf_only or (s["n_runouts"] > 0 and len(s["mixed"]) >= 2)
+        sup = ref_sup_infinite(rows, None if ts_free else ra["TS"]) + (0.0 if inf_only else ref_sup_finite(rows))
+        ga = sup - la
+        if not ga <= tol and not inf_only:
+            ctx.label("supremum_missed", "deficit" + _bucket(max(ga, 0.0)))
+            if ctx.known(fid):
+                return              # (spares the second search, which typically burns all 1e4 evaluations)
         b = analyse(name, rows2, index2)
         if b[0] == "ValueError":
             raise Violation("%s: %s-transformed series rejected (%s), original accepted" % (name, kind, b[1]), bucket="%s:guard_differs" % name)
         back = map_back(b[1], kind, c)
         lb = ll_of(rows, back)
-        tol = _ll_tol(name, rows)
-        ts_free = inf_only or (s["n_runouts"] > 0 and len(s["mixed"]) >= 2)
-        sup = ref_sup_infinite(rows, None if ts_free else ra["TS"]) + (0.0 if inf_only else ref_sup_finite(rows))
-        ga, gb = sup - la, sup - lb
+        gb = sup - lb
         missed = not (ga <= tol and gb <= tol)
         ctx.label("deficit" + _bucket(max(ga, gb, 0.0)))
         if missed and not inf_only:
